@@ -32,6 +32,12 @@ def run(ctx: Ctx):
     ctx.attempt(split, ctx)
     ctx.attempt(leaving, ctx)
     ctx.attempt(arrival_enterable, ctx)
+    # continuity at the start of a journey: move() drives a route from the route's own first link, so a travelling activity may only be
+    # entered with a route that begins at the vehicle's cell — the entry guard of each such activity, and the validator it relies on
+    from .. import guards
+    from . import c07
+    ctx.attempt(guards.rule_enter_guards, ctx, "START", "D7")
+    ctx.attempt(c07.validator, ctx, True)
     ctx.floor("DU.move", 4)
     ctx.floor("DU.partition", 5)
     ctx.floor("DU.split", 3)
@@ -163,6 +169,20 @@ def partition(ctx: Ctx, progress: bool = True):
     """progress=True (C06): an early return of traverse() yields the empty traversal (the vehicle is done). progress=False
     (C07): handing the whole plan back as remaining is as consistent with the vehicle's position as handing back nothing."""
     repo = ctx.repo
+    # who may extend the two halves of the partition: the experienced and the remaining route grow only link by link, through the two
+    # helpers judged below (a bulk carry-over computed some other way — by link id, by position — is not a partition of the plan when a
+    # link id occurs twice or a zero-length link was passed); judged first so that it is found even if a helper was renamed away
+    def _ok_w(s):
+        f = s.func
+        if f is None:
+            return None
+        if f.relpath == RT and f.qualname in ("RouteTraversal.add_traversal", "RouteTraversal.add_link_not_traversed"):
+            return "partition helper"
+        if f.relpath.startswith("nrel/hive/resources"):
+            return "mock"
+        return None
+    for fld in ("remaining_route", "experienced_route"):
+        rules.rule_field_writers(ctx, "D2", fld, _ok_w, f"RouteTraversal.{fld} grows only through add_traversal / add_link_not_traversed", 1)
     at = repo.func(RT, "RouteTraversal.add_traversal")
     t = at.params[1]
     ps = [p for p in flow.paths(at.node) if p.kind == "return"]
